@@ -43,6 +43,12 @@ pub struct Plan {
     pub observers: usize,
     pub base_amount: u64,
     pub ops: Vec<Op>,
+    /// network family: social staking on (the producer must stake this amount in every block and can
+    /// re-stake a slip `stake_period` blocks later); 0 = off
+    #[serde(default)]
+    pub stake: u64,
+    #[serde(default)]
+    pub stake_period: u64,
 }
 
 fn gen(seed: u64, tier: Tier) -> Plan {
@@ -58,6 +64,8 @@ fn gen(seed: u64, tier: Tier) -> Plan {
         observers: rng.range(1, 2) as usize,
         base_amount: *rng.pick(&[100_000u64, 50_000_000, 9_000_000_000_000]),
         ops,
+        stake: if rng.chance(1, 4) { 25_000 + rng.below(50_000) } else { 0 },
+        stake_period: rng.range(2, 5),
     }
 }
 
@@ -94,6 +102,11 @@ impl Scenario for C07 {
         let users: Vec<Key> = (1..=3).map(|i| derive_key(plan.seed, i)).collect();
         let mut cfg = SimConfig::new(plan.gp, plan.heartbeat);
         cfg.consensus.prune_after_blocks = 8;
+        if plan.stake > 0 {
+            cfg.consensus.default_social_stake = plan.stake;
+            cfg.consensus.default_social_stake_period = plan.stake_period.max(2);
+            r.fault("social_staking_enabled", 1);
+        }
         let mut sim = Sim::new(mix(plan.seed, 71), TS0);
         let mut opts = NodeOpts::default();
         opts.produce_blocks_by_timer = true;
@@ -106,6 +119,12 @@ impl Scenario for C07 {
             for (ui, u) in users.iter().enumerate() {
                 for s in 0..4u64 {
                     txt.push_str(&format!("{}\t{}\tNormal\n", plan.base_amount * (s + 1) + ui as u64 + 30_000, u.pk.to_base58()));
+                }
+            }
+            if plan.stake > 0 {
+                // the producer needs funds of its own to stake: a handful of slips, each a few stakes large
+                for s in 0..8u64 {
+                    txt.push_str(&format!("{}\t{}\tNormal\n", plan.stake * 3 + 30_000 + s, pk.pk.to_base58()));
                 }
             }
             let mut d = sim.nodes[p].disk.lock().unwrap();
